@@ -58,7 +58,7 @@ def _r(v):
     return sc.lift(v)
 
 
-def make_face(oid, sizes, n_node, lead, agg_subset=None, tiers=("quick", "thorough")):
+def make_face(oid, sizes, n_node, lead, agg_subset=None, tiers=("quick", "thorough"), dtype="float"):
     n_face, n_max = len(sizes), max(sizes)
     lon, lat = C.default_lonlat(n_node)
     shape = tuple(lead) + (n_node,)
@@ -67,12 +67,21 @@ def make_face(oid, sizes, n_node, lead, agg_subset=None, tiers=("quick", "thorou
     def setup(ctx):
         ctx.const("sizes", list(sizes)); ctx.const("lead", list(lead))
         fn, nf = C.sym_face_table(ctx, n_face, n_max, n_node, sizes=sizes)
-        vals = [z3.Real(f"v_{i}") for i in range(nlead * n_node)]
-        for i, v in enumerate(vals):
-            ctx.solver.add(v >= -5, v <= 5)
-        for i in range(len(vals)):
-            for j in range(i + 1, len(vals)):
-                ctx.solver.add(z3.Or(vals[i] - vals[j] >= sc.lift(0.25), vals[j] - vals[i] >= sc.lift(0.25)))   # generic data: a wrong operand changes the value
+        ctx.const("dtype", dtype)
+        if dtype == "float":
+            vals = [z3.Real(f"v_{i}") for i in range(nlead * n_node)]
+            for i, v in enumerate(vals):
+                ctx.solver.add(v >= -5, v <= 5)
+            for i in range(len(vals)):
+                for j in range(i + 1, len(vals)):
+                    ctx.solver.add(z3.Or(vals[i] - vals[j] >= sc.lift(0.25), vals[j] - vals[i] >= sc.lift(0.25)))   # generic data: a wrong operand changes the value
+        elif dtype == "int":
+            vals = [z3.Int(f"v_{i}") for i in range(nlead * n_node)]
+            for v in vals:
+                ctx.solver.add(v >= -20, v <= 20)
+            ctx.solver.add(z3.Distinct(*vals))
+        else:
+            vals = [z3.Bool(f"v_{i}") for i in range(nlead * n_node)]
         ctx.eng.declare("vals", vals)
         agg = ctx.enum("agg", AGGS)
         return fn, nf, vals, agg
@@ -90,7 +99,8 @@ def make_face(oid, sizes, n_node, lead, agg_subset=None, tiers=("quick", "thorou
             g = C.clone_grid(C.sarr_int(rows), lon, lat, extra=extra)
             U = w.get("uxarray.core.dataarray", "UxDataArray")
             dims = [f"d{i}" for i in range(len(lead))] + ["n_node"]
-            da = U(symnp.SArr.new([mk(v) for v in vals], shape, None, symnp.float64), dims=dims, uxgrid=g, name="t")
+            sdt = {"float": symnp.float64, "int": symnp.int64, "bool": symnp.bool_}[dtype]
+            da = U(symnp.SArr.new([mk(v) for v in vals], shape, None, sdt), dims=dims, uxgrid=g, name="t")
             name = agg.concrete()                      # forks over the ten reductions
             out = getattr(da, f"topological_{name}")(destination="face")
         finally:
@@ -101,26 +111,28 @@ def make_face(oid, sizes, n_node, lead, agg_subset=None, tiers=("quick", "thorou
         ctx.prove("only the requested reduction is used", all(c[0] == name for c in log) and len(log) >= 1)
         fl = ov.flat_list()
 
+        rvals = [_r(mk(v)) for v in vals]
+
         def sel(idx, i):
-            t = vals[i * n_node + n_node - 1]
+            t = rvals[i * n_node + n_node - 1]
             for k in range(n_node - 2, -1, -1):
-                t = z3.If(idx == k, vals[i * n_node + k], t)
+                t = z3.If(idx == k, rvals[i * n_node + k], t)
             return t
         for i in range(nlead):
             cl = []
             for f in range(n_face):
                 exp = _H(sizes[f])(*[sel(fn[f][j], i) for j in range(sizes[f])])
                 cl.append(_r(fl[i * n_face + f]) == exp)
-            ctx.prove(f"leading index {i}: result[f] = reduction over exactly face f's own corners (no padding), for every face", z3.And(*cl))
+            ctx.prove(f"leading index {i}: result[f] = the reduction's own value over exactly face f's own corners (no padding, not cast back to the {dtype} source type), for every face", z3.And(*cl))
 
     def replay(v):
         import uxarray as ux
         rows = [[int(x) for x in r] for r in v["fn"]]
         g = C.real_grid(rows, lon, lat)
-        data = np.array(v["vals"], dtype=float).reshape(shape)
+        data = np.array(v["vals"], dtype={"float": float, "int": np.int64, "bool": bool}[dtype]).reshape(shape)
         dims = [f"d{i}" for i in range(len(lead))] + ["n_node"]
         for name in ([AGGS[v["agg"]]] + [a for a in AGGS if a != AGGS[v["agg"]]]):
-            d = data > 0 if name in ("all", "any") else data
+            d = (data > 0 if name in ("all", "any") else data) if dtype != "bool" else data
             da = ux.UxDataArray(d, dims=dims, uxgrid=g, name="t")
             out = getattr(da, f"topological_{name}")(destination="face")
             if tuple(out.dims) != tuple(dims[:-1]) + ("n_face",) or out.uxgrid is not g:
@@ -278,6 +290,8 @@ def obligations(tier):
         make_face("C17.face.3535.2d", (3, 5, 3, 5), 7, (2,)),
         make_face("C17.face.4335.2d", (4, 3, 3, 5), 7, (2,)),
         make_face("C17.face.6336", (6, 3, 3, 6), 7, ()),
+        make_face("C17.face.433.int", (4, 3, 3), 6, (), dtype="int"),
+        make_face("C17.face.453.bool", (4, 5, 3), 6, (2,), dtype="bool"),
         make_face("C17.face.53435.3d", (5, 3, 4, 3, 5), 7, (2, 2), tiers=("thorough",)),
         make_edge("C17.edge.4e", 4, 5, ()),
         make_edge("C17.edge.3e.2d", 3, 5, (2,)),
